@@ -626,6 +626,8 @@ class Sym:
             return ("ctor", SOME, (v,)) if c == OK else ("ctor", NONE, ())
         if callee == O + "ok_or" and len(args) == 2:
             return ("ctor", OK, (v,)) if c == SOME else ("ctor", ERR, (args[1],))
+        if callee in (O + "unwrap_or", R + "unwrap_or") and len(args) == 2:
+            return v if c in (SOME, OK) else args[1]
         return None
 
     # ------------------------------------------------------------------ expression evaluation
@@ -741,7 +743,10 @@ class Sym:
                 out.append((s, None))
                 continue
             b, i = ts
-            self.indexed.setdefault(n.get("sp"), set()).add((len(b[1]) if b[0] == "array" else b[2] if b[0] == "repeat" else None, i))
+            blen = len(b[1]) if b[0] == "array" else b[2] if b[0] == "repeat" else None
+            if b[0] == "tproj" and b[2] == 0 and b[1][0] == "call" and b[1][1].split("::")[-1] in ("split_at", "split_at_mut") and len(b[1][2]) == 2 and b[1][2][1][0] == "lit" and isinstance(b[1][2][1][1], int):
+                blen = b[1][2][1][1]       # the head of x.split_at(k) has exactly k elements
+            self.indexed.setdefault(n.get("sp"), set()).add((blen, i))
             if b[0] == "array" and i[0] == "lit" and isinstance(i[1], int) and 0 <= i[1] < len(b[1]):
                 out.append((s, b[1][i[1]]))
             else:
